@@ -54,8 +54,9 @@ Module: harness.agents.c15_history.run(seed, n, driver, thorough) -> dict ; repl
 import os, sys, json, math, random, signal, argparse, warnings
 
 os.environ.setdefault("JAQALPAQ_RUN_EMULATOR", "1")
-if "/verif" not in sys.path:
-    sys.path.insert(0, "/verif")
+_ROOT = __import__("os").path.dirname(__import__("os").path.dirname(__import__("os").path.dirname(__import__("os").path.abspath(__file__))))
+if _ROOT not in sys.path:
+    sys.path.insert(0, _ROOT)
 
 DEFAULT_DRIVER = "/verif/lean/.lake/build/bin/jaqal-model"
 
